@@ -1,10 +1,12 @@
 use anyhow::{bail, Result};
 use serde_json::Value;
 
+pub mod c03;
 pub mod c04;
 
 pub fn exec(prop: &str, v: &Value) -> Result<Value> {
 	match prop {
+		"C03" => c03::exec(v),
 		"C04" => c04::exec(v),
 		_ => bail!("unknown property {prop}"),
 	}
@@ -12,6 +14,7 @@ pub fn exec(prop: &str, v: &Value) -> Result<Value> {
 
 pub fn gen(prop: &str, seed: u64, n: usize) -> Result<Vec<Value>> {
 	match prop {
+		"C03" => c03::gen(seed, n),
 		"C04" => c04::gen(seed, n),
 		_ => bail!("unknown property {prop}"),
 	}
